@@ -51,6 +51,8 @@ TEXTS = [
     'a = 5 power 2;\nb = "abc" matches "a.c";\nprint a b;\n',
     'a = - 5 + ~ 3;\nprint a;\n',
     'x:integer;\ny:string;\nprint isnull(x) typeof(y);\n',
+    's = "one\ntwo";\nprint s s.count();\n',
+    's = "a\n\n  b\n";\nt = "x"\n  + "y";\nprint s.count() t;\n',
     'a = 1;\r\nb = 2;\r\nprint a b;\r\n',
     'a = "with\r\ncrlf inside";\r\nprint a;\r\n',
     'print 1 ; print 2 ;; print 3;\n',
@@ -103,7 +105,13 @@ def frag_gen(tier):
                 ops = [op_ctx(0), "tokens 0 %s s" % hx(b), op_ctx(1), "tokens 1 %s s" % hx(crlf),
                        op_ctx(2), "parse 2 0 %s s" % hx(b), "unparse 0", "exec 0", op_out(2),
                        op_ctx(3), "parse 3 1 %s s" % hx(crlf), "unparse 1", "exec 1", op_out(3)]
-                yield Case("f%d" % n, ops, {"kind": "frag", "text": ti, "how": "crlf", "offs": []})
+                # ... and the same two layouts through the reader of the include statement (a line-oriented reader of its own)
+                yield Case("f%d" % n, ops + include_ops(crlf.decode("latin-1"), n), {"kind": "frag", "text": ti, "how": "crlf", "offs": [], "inc": True})
+                n += 1
+                ops_lf = [op_ctx(0), "tokens 0 %s s" % hx(b), op_ctx(1), "tokens 1 %s s" % hx(b),
+                          op_ctx(2), "parse 2 0 %s s" % hx(b), "unparse 0", "exec 0", op_out(2),
+                          op_ctx(3), "parse 3 1 %s s" % hx(b), "unparse 1", "exec 1", op_out(3)]
+                yield Case("f%d" % n, ops_lf + include_ops(t, n), {"kind": "frag", "text": ti, "how": "lf-include", "offs": [], "inc": True})
                 n += 1
             if tier == "thorough":
                 for i in range(1, L, 3):
@@ -205,7 +213,7 @@ def include_ops(text, n):
     """the same text reaching the scanner through the reader of the include statement"""
     d = os.path.join(build.BUILD, "scratch", "c13-inc")
     os.makedirs(d, exist_ok=True)
-    path = os.path.join(d, "i-%d-%d.bloc" % (os.getpid(), n % 32))
+    path = os.path.join(d, "i-%d-%d.bloc" % (os.getpid(), n % 100000))
     return ["mkfile %s %s" % (hx(path), hx(text)), op_ctx(4), op_run('include "%s";' % path, slot=4), op_out(4), "rmfile %s" % hx(path)]
 
 
@@ -335,7 +343,7 @@ def check(case, res):
     if ref_p.get("r") == "ok":
         if ref_u.get("text") != var_u.get("text"):
             vs.append(Violation("program:%s" % cls, "compiled programs differ: %r vs %r; %s" % (unhex(ref_u.get("text", ""))[:200], unhex(var_u.get("text", ""))[:200], where), case))
-        elif long_ and len(st) >= 19 and (ref_x.get("r"), ref_o.get("out")) != (st[16].get("r"), st[17].get("out")):
+        elif (long_ or m.get("inc")) and len(st) >= 19 and (ref_x.get("r"), ref_o.get("out")) != (st[16].get("r"), st[17].get("out")):
             vs.append(Violation("include:%s" % cls, "the text read through an include statement gives %s %r, directly %s %r; %s" % (
                 st[16], unhex(st[17].get("out", ""))[:120], ref_x.get("r"), unhex(ref_o.get("out", ""))[:120], where), case))
         elif (ref_x.get("r"), ref_o.get("out")) != (var_x.get("r"), var_o.get("out")):
